@@ -62,6 +62,14 @@ FMergeFail ==
   /\ ("obs" \in DOMAIN Ev => ObsIs(Ev.obs, commd))
   /\ Same /\ UNCHANGED faultSeen
 
+\* a reload of a long-lived reader: it either fails because of an injected fault, or it exposes a
+\* consistent index holding the last commit (there is no concurrency in these runs)
+FReload ==
+  /\ Ev.ev = "reload"
+  /\ IF Ev.ok THEN ObsConsistent(Ev.obs) /\ ObsSorted(Ev.obs) /\ (kf \/ ObsDocs(Ev.obs) = commd)
+     ELSE faultSeen
+  /\ Same /\ UNCHANGED faultSeen
+
 FSummary == Ev.ev = "summary" /\ Same /\ UNCHANGED faultSeen
 
 \* a dropped writer under a fault may leave its lock file if the delete itself failed: the harness
@@ -71,7 +79,7 @@ FStep ==
   /\ calling' = CASE Ev.ev = "call" -> TRUE
                   [] Ev.ev \in {"commit", "prepare_commit", "prepare_abort", "reset"} -> FALSE
                   [] OTHER -> calling
-  /\ (FFault \/ FHeal \/ FOpFail \/ FCommitFail \/ FRollbackFail \/ FNewWriterFail \/ FWaitFail \/ FGcFail \/ FSummary)
+  /\ (FFault \/ FHeal \/ FOpFail \/ FCommitFail \/ FRollbackFail \/ FNewWriterFail \/ FWaitFail \/ FGcFail \/ FSummary \/ FReload)
 
 \* successful calls follow CoreTrace unchanged; a successful merge keeps the content (TMerge)
 FMergeStep ==
